@@ -279,8 +279,8 @@ def corpus():
 def generate(rng, tier):
     big = tier == 'thorough'
     out = []
-    gen_attr(rng, out, 120000 if big else 6000)
-    gen_series(rng, out, 40000 if big else 2500, big)
+    gen_attr(rng, out, 400000 if big else 25000)
+    gen_series(rng, out, 120000 if big else 8000, big)
     gen_malformed(rng, out)
     return out
 
